@@ -90,6 +90,7 @@ type Monitor interface {
 // ---------------------------------------------------------------------------
 
 type Sim struct {
+	quietLeft int
 	cooling bool
 	gasSeen map[string]int64 // gas used by the last successful transaction of each message type
 	Seed   uint64
@@ -395,9 +396,20 @@ func (s *Sim) generateBlock() *BlockSpec {
 		spec.DtMs = 4000
 		spec.Faults = nil
 	}
+	// quiet period (fault): for a while nobody but the price feeders and governance sends anything -
+	// an idle chain whose blockers run on whatever state the busy period left behind
+	if s.quietLeft == 0 && !cooling && s.Cfg.Faults.Quiet > 0 && s.Height > 10 && s.Rng("quiet").Float64() < s.Cfg.Faults.Quiet {
+		s.quietLeft = 3 + s.Rng("quiet").IntN(13)
+		s.Stats.Inc("fault/quiet_period_started", 1)
+	}
+	quiet := s.quietLeft > 0
+	if quiet {
+		s.quietLeft--
+		s.Stats.Inc("fault/quiet_block", 1)
+	}
 	// agents act on the committed state
 	for _, a := range s.agents {
-		if cooling && a.Name() != "feeder" && a.Name() != "gov" && a.Name() != "canary" {
+		if (cooling || quiet) && a.Name() != "feeder" && a.Name() != "gov" && a.Name() != "canary" {
 			continue
 		}
 		func() {
